@@ -116,18 +116,28 @@ PayloadExtent(b, p, wt) ==
 
 Max0(x) == IF x < 0 THEN 0 ELSE x
 
-\* Skip(fn, wt): the caller has just read the key of field (fn, wt) and asks for the raw field
+\* Skip(fn, wt): the caller has just read the key of field (fn, wt) and asks for the raw field.
+\* The key normally is the minimal encoding EncKey(fn, wt) right before the cursor (keyOK).  A key may legally be encoded in more
+\* bytes than necessary (LongKeyAt): then the call may be refused, and if it succeeds the raw field has to start where that key
+\* starts (not SizeOfTagKey bytes before the cursor, which would cut the key).  Without any matching key before the cursor the call
+\* is a misuse: refused in safe mode, unconstrained in fast mode (which documents that the check is skipped).
+LongKeyAt(b, p, fn, wt) ==
+  {q \in 0..(p - 1) : p - q <= 10 /\ LET kv == VarintAt(b, q) IN
+                                        kv.n = p - q /\ ~kv.big /\ FitsU32(kv.w) /\ KeyFn(kv.w) = fn /\ KeyWt(kv.w) = wt}
 RefSkip(b, p, mode, fn, wt) ==
   IF p >= Len(b) \/ wt \notin WireTypes \/ fn < 0 \/ fn > MaxFieldNumber THEN Rej
   ELSE LET key == EncKey(fn, wt)
            k   == Len(key)
            ext == PayloadExtent(b, p, wt)
            keyOK == p >= k /\ Slice(b, p - k, p) = key
+           long == LongKeyAt(b, p, fn, wt)
        IN IF ~ext.ok THEN Rej
           ELSE IF keyOK
                THEN Item(IF ext.firm /\ fn >= 1 THEN "must" ELSE "may", Slice(b, p - k, p + ext.len), <<>>, ext.len)
+          ELSE IF long # {} /\ mode = ModeSafe
+               THEN Item("may", Slice(b, CHOOSE q \in long : \A r \in long : q >= r, p + ext.len), <<>>, ext.len)
           ELSE IF mode = ModeSafe /\ p >= k THEN Rej
-          ELSE Item("may", Slice(b, Max0(p - k), p + ext.len), <<>>, ext.len)
+          ELSE Item("mayany", <<>>, <<>>, ext.len)
 
 SeekTarget(b, p, offset, whence) ==
   CASE whence = 0 -> offset [] whence = 1 -> p + offset [] whence = 2 -> Len(b) + offset [] OTHER -> -1
